@@ -126,6 +126,16 @@ func areaShadow(r *Rng, n int, dir string) (*AreaOut, error) {
 				if r.Chance(50) {
 					_ = txn.Put(mainDBI, pick(r, pool[:10]), []byte("new"), 0)
 				}
+				// replace a long value by another one sharing the prefix that fits into the shadow key
+				for _, p := range mainPairs {
+					if len(p.V) == 506 && r.Chance(60) {
+						nv := append([]byte{}, p.V...)
+						nv[505] ^= 3 // 'a' <-> 'b'
+						if txn.Del(mainDBI, p.K, p.V) == nil {
+							_ = txn.Put(mainDBI, p.K, nv, 0)
+						}
+					}
+				}
 			}
 			mainCanon, _ = dumpDBI(txn, mainDBI)
 			shadowCanon, _ = dumpDBI(txn, shDBI)
@@ -285,6 +295,25 @@ func mirrorOracle(op string, now, txn uint64, main, shadow, result []pair) []Ora
 						add("C11", "capture-delete", fmt.Sprintf("key %x deleted by the application but shadow entry is %+v", k, res))
 					}
 				}
+			}
+		}
+	case "capturedup":
+		// C20: after an accepted capture every application pair is live in the shadow DBI with exactly its value
+		live := map[string]bool{}
+		for _, p := range result {
+			if lv, ok := logical(p.V); ok && !lv.Del {
+				k := p.K
+				if len(k) >= 6 {
+					kl := int(k[len(k)-1])
+					if kl+5 <= len(k) {
+						live[string(k[:kl])+"\x00|"+string(lv.Val)] = true
+					}
+				}
+			}
+		}
+		for _, p := range main {
+			if !live[string(p.K)+"\x00|"+string(p.V)] {
+				add("C20", "capture-dup-value", fmt.Sprintf("application pair (%x, %d-byte value ..%x) is not live with that value in the shadow DBI after capture", p.K, len(p.V), p.V[max(0, len(p.V)-2):]))
 			}
 		}
 	case "project":
